@@ -25,6 +25,7 @@ type detCase struct {
 	Files []treeFile `json:"files"`
 	Cfg   treeCfg    `json:"cfg"`
 	Page  string     `json:"page"`
+	Steps []string   `json:"steps"` // kind "seq": sources rendered one after the other in this process
 	Tags  []string   `json:"tags"`
 }
 
@@ -48,6 +49,23 @@ func detOnce(c detCase) (sig string, err error) {
 			return "ERR " + rerr.Error(), nil
 		}
 		return "OUT " + out, nil
+	case "seq":
+		// the same source must give the same result wherever it stands in the sequence (after a success, after a failure)
+		seen := map[string]string{}
+		var sigs []string
+		for i, src := range c.Steps {
+			out, rerr := textwire.EvaluateString(expandMarkers(src), nil)
+			sig := "OUT " + out
+			if rerr != nil {
+				sig = "ERR " + rerr.Error()
+			}
+			if prev, ok := seen[src]; ok && prev != sig {
+				return fmt.Sprintf("DIFFERS step %d: %q gave %q before and %q now", i+1, src, prev, sig), nil
+			}
+			seen[src] = sig
+			sigs = append(sigs, sig)
+		}
+		return strings.Join(sigs, " ; "), nil
 	case "tree":
 		root, serr := setupTree(c.Files, c.Cfg)
 		if serr != nil {
@@ -74,6 +92,9 @@ func detFamily(raw json.RawMessage) Result {
 		return Result{ID: caseID(raw), Status: "skip", Msg: err.Error()}
 	}
 	id := c.Src
+	if c.Kind == "seq" {
+		id = strings.Join(c.Steps, " ; ")
+	}
 	if c.Kind == "tree" {
 		id = treeID(treeCase{Files: c.Files})
 	}
@@ -88,6 +109,11 @@ func detFamily(raw json.RawMessage) Result {
 		sig, err := detOnce(c)
 		if err != nil {
 			res.Status, res.Msg = "skip", err.Error()
+			return res
+		}
+		if strings.HasPrefix(sig, "DIFFERS ") {
+			res.Status, res.Kind = "viol", "nondeterminism"
+			res.Msg = "the same render gave different results within one process: " + sig
 			return res
 		}
 		if i == 0 {
